@@ -101,7 +101,7 @@ def grid_float(tier):
     return out
 
 
-STR_TEXTS = ["", "a", "a b", "a=b", "-x", "--y=z", "my_app_db", "a_b-c_d", "\u00e9", "\u674e\u5eb7", "1", "true", " lead ",
+STR_TEXTS = ["", "a", "a b", "a=b", "-x", "--y=z", "my_app_db", "a_b-c_d", "build-", "-", "a--", "\u00e9", "\u674e\u5eb7", "1", "true", " lead ",
              "a:b", "%s", "\\n", "'q'", '"dq"', "5:7", "None"]
 
 
@@ -427,6 +427,8 @@ def make_defs(tname, multiple, name):
         out.append(("typed%d" % i, True, [d] if multiple else d))
         if not multiple:
             out.append(("typed%d" % i, False, d))      # type inferred from the default
+        elif tname == "str":
+            out.append(("typed%d" % i, False, [d]))    # multiple without type=: documented element type str
     return out
 
 
